@@ -140,6 +140,23 @@ def rint (mode x : Nat) : Nat := flet x fun x => flet (ebits x) fun ex => cond (
 def roundToEven := rint 0
 def round := rint 1
 def floor := rint 2
+/-- `math.Ceil` (mode 3) and `math.Trunc` (mode 4); kept apart from `rintB` so that existing proofs are untouched -/
+def rintC (mode sbit q rem : Nat) : Nat :=
+  rnd sbit (cond (Nat.beq mode 3) (cond (Nat.beq sbit 0 && Nat.blt 0 rem) (Nat.succ q) q) q) (Nat.add 4096 1075)
+def rintD (mode x ex : Nat) : Nat :=
+  cond (Nat.ble 1075 (exf ex)) x
+    (flet (Nat.sub 1075 (exf ex)) fun sh =>
+     flet (mant x ex) fun m =>
+     flet (Nat.shiftRight m sh) fun q =>
+     flet (Nat.sub m (Nat.shiftLeft q sh)) fun rem =>
+     rintC mode (Nat.mul (Nat.shiftRight x 63) P63) q rem)
+def rint2 (mode x : Nat) : Nat := flet x fun x => flet (ebits x) fun ex => cond (Nat.blt ex 2047) (rintD mode x ex) x
+def ceil := rint2 3
+def trunc := rint2 4
+/-- `math.Abs`: clear the sign bit -/
+def abs (x : Nat) : Nat := Nat.mod x P63
+/-- `math.Max` = `-Min(-x, -y)` (same special cases: +Inf wins, NaN propagates, `Max(+0, -0) = +0`) -/
+def max (x y : Nat) : Nat := neg (min (neg x) (neg y))
 def truncAbs (x : Nat) : Nat := flet x fun x => flet (ebits x) fun ex =>
   cond (Nat.ble 1075 (exf ex)) (Nat.shiftLeft (mant x ex) (Nat.sub (exf ex) 1075)) (Nat.shiftRight (mant x ex) (Nat.sub 1075 (exf ex)))
 def ofNat (n : Nat) : Nat := rnd 0 n (Nat.add 4096 1075)
